@@ -55,10 +55,12 @@ class Registry:
             return fn
         return deco
 
-    def include(self, other_reg, only_clauses=None, skip_clauses=None, match=None, tier=None, prefix=None):
+    def include(self, other_reg, only_clauses=None, skip_clauses=None, match=None, tier=None, prefix=None, exclude=None):
         """re-use the obligations of another property's registry, keeping only some of their clauses"""
         for o in other_reg.obs:
             if match and not fnmatch.fnmatchcase(o.id, match):
+                continue
+            if exclude and fnmatch.fnmatchcase(o.id, exclude):
                 continue
             tail = o.id.split("/", 1)[1]
             self.obs.append(Obligation(f"{self.prop}/{prefix or other_reg.prop}:{tail}", o.fn, o.sorts, order=o.order, funcs=o.funcs,
@@ -333,7 +335,7 @@ def check_property(prop, tier="quick", seed=0, jobs=None, only=None, write_evide
         printed_known.add(key)
         print(f"KNOWN-FINDING: property={prop} {kf.get('id')}: {kf.get('what')}")
     for oid, clause, detail, wit in violations:
-        safe = (oid + "__" + clause).replace("/", "_").replace("<", "").replace(">", "").replace(" ", "")[:150]
+        safe = (oid + "__" + clause).replace("<no-raise>", "no-raise").replace("<=", "le").replace(">=", "ge").replace("/", "_").replace("<", "lt").replace(">", "gt").replace(" ", "")[:170]
         path = os.path.join("replays", prop, safe + ".json")
         payload = dict(property=prop, obligation=oid, clause=clause, verifier_output=detail,
                        tier=tier, seed=seed)
